@@ -313,6 +313,50 @@ static void pages_case(void) {
     carquet_page_writer_destroy(w);
 }
 
+/* clsweep <codec> <level> <target> <window>: incompressible inputs (noise generated here) whose COMPRESSED length
+ * sweeps target-window .. target+window: the input length is stepped one byte at a time; each output is decompressed
+ * into exactly |x| bytes by carquet and by the system library.
+ * -> "OK tested=<k> clen=<min>..<max> n=<first>..<last>"  |  "FAIL n=<n> clen=<c> comp=<status> dec=<status> out=<len> lib=<0|1> ..." */
+static void clsweep_case(void) {
+    const char* cn = h_tok[1];
+    int codec = !strcmp(cn, "snappy") ? 0 : !strcmp(cn, "lz4") ? 1 : !strcmp(cn, "gzip") ? 2 : !strcmp(cn, "zstd") ? 3 : -1;
+    int level = atoi(h_tok[2]); long target = atol(h_tok[3]); long win = atol(h_tok[4]);
+    if (codec < 0 || target < win + 64) { puts("ERR bad-clsweep"); return; }
+    size_t maxn = (size_t)target + (size_t)win + 64;
+    uint8_t* noise = xalloc(maxn);
+    uint64_t r = 0xD1B54A32D192ED03ull ^ (uint64_t)target * 0x9E3779B97F4A7C15ull ^ (uint64_t)level;
+    for (size_t i = 0; i < maxn; i++) { r ^= r << 13; r ^= r >> 7; r ^= r << 17; noise[i] = (uint8_t)(r >> 24); }
+    size_t bcap = codec_bound(codec, maxn) + 64; uint8_t* c = xalloc(bcap);
+    /* estimate the overhead at the target, start a little below the window */
+    size_t clen = 0; long n = target;
+    if (codec_compress(codec, noise, (size_t)n, c, bcap, &clen, level) != 0) { puts("FAIL initial-compress"); free(noise); free(c); return; }
+    n = target - ((long)clen - target) - win - 8; if (n < 1) n = 1;
+    for (int guard = 0; guard < 64; guard++) {          /* walk down until below the window */
+        if (codec_compress(codec, noise, (size_t)n, c, bcap, &clen, level) != 0) break;
+        if ((long)clen < target - win || n <= 1) break;
+        n -= ((long)clen - (target - win)) + 1; if (n < 1) n = 1;
+    }
+    long tested = 0, cmin = -1, cmax = -1, nfirst = -1, nlast = -1; int failed = 0;
+    for (long it = 0; it < 2 * win + 200 && (size_t)n <= maxn; it++, n++) {
+        size_t bound = codec_bound(codec, (size_t)n); void* cb; uint8_t* cc = exact(bound, &cb); clen = (size_t)-1;
+        int rc = codec_compress(codec, noise, (size_t)n, cc, bound, &clen, level);
+        if (rc != 0 || clen > bound) { printf("FAIL n=%ld clen=%zu comp=%d bound=%zu", n, clen, rc, bound); failed = 1; free(cb); break; }
+        if ((long)clen < target - win) { free(cb); continue; }
+        if ((long)clen > target + win) { free(cb); break; }
+        void* sb; uint8_t* sbuf = exact(clen, &sb); memcpy(sbuf, cc, clen);
+        void* db; uint8_t* d = exact((size_t)n, &db); size_t out = (size_t)-1;
+        int r2 = codec_decompress(codec, sbuf, clen, d, (size_t)n, &out);
+        int rt = (r2 == 0 && out == (size_t)n && memcmp(d, noise, (size_t)n) == 0);
+        int lib = lib_decodes(codec, sbuf, clen, noise, (size_t)n);
+        free(sb); free(db); free(cb);
+        if (!rt || !lib) { printf("FAIL n=%ld clen=%zu comp=0 dec=%d out=%zu lib=%d level=%d", n, clen, r2, out, lib, level); failed = 1; break; }
+        tested++; if (cmin < 0) { cmin = (long)clen; nfirst = n; } cmax = (long)clen; nlast = n;
+    }
+    if (!failed) printf("OK tested=%ld clen=%ld..%ld n=%ld..%ld", tested, cmin, cmax, nfirst, nlast);
+    putchar('\n');
+    free(noise); free(c);
+}
+
 extern void carquet_gzip_init_tables(void);
 extern void carquet_zstd_init_tables(void);
 
@@ -329,6 +373,7 @@ int main(void) {
         else if (!strcmp(h_tok[0], "gz") && h_ntok == 4) comp_case(2, atoi(h_tok[1]), atol(h_tok[2]), h_tok[3]);
         else if (!strcmp(h_tok[0], "zs") && h_ntok == 4) comp_case(3, atoi(h_tok[1]), atol(h_tok[2]), h_tok[3]);
         else if (!strcmp(h_tok[0], "big") && h_ntok == 5) big_case();
+        else if (!strcmp(h_tok[0], "clsweep") && h_ntok == 5) clsweep_case();
         else if (!strcmp(h_tok[0], "hist") && h_ntok >= 5) hist_case();
         else if (!strcmp(h_tok[0], "pages") && h_ntok == 5) pages_case();
         else if (!strcmp(h_tok[0], "slen") && h_ntok == 2) {
